@@ -112,7 +112,7 @@ pub fn run_one(prop: &str, rep: &mut Report, h: &Hist) -> Option<(CRun, crate::r
 }
 
 pub fn run(ctx: &Ctx, rep: &mut Report) {
-    let n = ctx.n(4000, 150_000);
+    let n = ctx.n(10_000, 200_000);
     let n_fill = ctx.n(96, 1500);
     for k in ctx.cases(n + n_fill) {
         rep.cur_case = k;
